@@ -7,6 +7,7 @@ import PdbModel.Hier
 import PdbModel.Level
 import PdbModel.DriverC12
 import PdbModel.DriverC08
+import PdbModel.DriverC09
 namespace PdbModel
 
 def parseLevels (t : String) : Option (List ErrorLevel) :=
@@ -39,6 +40,7 @@ def handle (line : String) : String :=
   | "c07" :: rest => (handleC07 rest).getD "BAD-REQUEST"
   | "c12" :: rest => (handleC12 rest).getD "BAD-REQUEST"
   | "c08" :: rest => (handleC08 rest).getD "BAD-REQUEST"
+  | "c09" :: rest => (handleC09 rest).getD "BAD-REQUEST"
   | _ => "BAD-REQUEST"
 
 end PdbModel
